@@ -1037,3 +1037,7 @@ mod tests {
         assert_eq!(underlying_buffer.len(), 3 * std::mem::size_of::<i32>());
     }
 }
+
+#[cfg(kani)]
+#[path = "/verif/kani/arrow-buffer/buffer/offset.rs"]
+mod verif_kani;
